@@ -65,7 +65,7 @@ def _has_tab_indent(line):
 
 def classify_v2(text):
     """Colang 2.x: python-like lexical structure.  Returns (lines, info) where lines[i] is a dict
-    {indent, class, endin} and class in code/blank/comment/instring/cont.  After the first place the
+    {indent, class, endin, open} and class in code/blank/comment/instring/cont.  After the first place the
     scanner is unsure (unterminated single-line string) every following line is 'instring' (never edited)."""
     raw = text.split("\n")
     out = []
@@ -74,7 +74,7 @@ def classify_v2(text):
     unsure = False
     for ln in raw:
         if unsure:
-            out.append({"indent": _indent_of(ln), "class": "instring", "endin": True})
+            out.append({"indent": _indent_of(ln), "class": "instring", "endin": True, "open": False})
             continue
         st = ln.strip()
         if triple:
@@ -139,7 +139,8 @@ def classify_v2(text):
             elif ch == "\\" and i == n - 1:
                 unsure = True
             i += 1
-        out.append({"indent": _indent_of(ln), "class": cls, "endin": bool(triple) or unsure})
+        out.append({"indent": _indent_of(ln), "class": cls, "endin": bool(triple) or unsure,
+                    "open": depth > 0 and not (bool(triple) or unsure)})
     return out
 
 
@@ -155,17 +156,17 @@ def classify_v1(text):
     for ln in raw:
         st = ln.strip()
         if unsure:
-            out.append({"indent": _indent_of(ln), "class": "instring", "endin": True})
+            out.append({"indent": _indent_of(ln), "class": "instring", "endin": True, "open": False})
             continue
         if mode == "string":
             if st.endswith('"'):
                 mode = None
-            out.append({"indent": _indent_of(ln), "class": "instring", "endin": mode is not None})
+            out.append({"indent": _indent_of(ln), "class": "instring", "endin": mode is not None, "open": False})
             continue
         if mode == "triple":
             if st.endswith('"""'):
                 mode = None
-            out.append({"indent": _indent_of(ln), "class": "instring", "endin": mode is not None})
+            out.append({"indent": _indent_of(ln), "class": "instring", "endin": mode is not None, "open": False})
             continue
         if cont:
             cls = "cont"
@@ -196,7 +197,7 @@ def classify_v1(text):
                 elif re.search(r"(^|\s)or$", st.split("#")[0].rstrip()) or st.endswith(" or"):
                     cont_next = True
         cont = cont_next
-        out.append({"indent": _indent_of(ln), "class": cls, "endin": endin})
+        out.append({"indent": _indent_of(ln), "class": cls, "endin": endin, "open": cont_next and not endin})
     return out
 
 
@@ -248,7 +249,34 @@ def apply_script(text, lines, script):
 _STRIP_KEYS = ("_source", "_source_mapping", "source_code")
 
 
-def canon(x):
+def _norm_ws(s):
+    """White space outside string literals in a (multi-line) Colang 2.x expression text is not part of the
+    flow: runs of blanks/newlines outside quotes are collapsed to one blank (quoted text is kept verbatim)."""
+    if not any(ch in s for ch in "\n\t") and "  " not in s and not s.endswith(" "):
+        return s
+    out = []
+    i, n = 0, len(s)
+    while i < n:
+        ch = s[i]
+        if ch in "\"'":
+            q = ch * 3 if s.startswith(ch * 3, i) else ch
+            j = i + len(q)
+            while j < n and not s.startswith(q, j):
+                j += 2 if s[j] == "\\" else 1
+            j = min(n, j + len(q))
+            out.append(s[i:j])
+            i = j
+        elif ch in " \t\r\n":
+            while i < n and s[i] in " \t\r\n":
+                i += 1
+            out.append(" ")
+        else:
+            out.append(ch)
+            i += 1
+    return "".join(out).strip()
+
+
+def canon(x, ws=False):
     import dataclasses
     import enum
     if dataclasses.is_dataclass(x) and not isinstance(x, type):
@@ -256,15 +284,17 @@ def canon(x):
         for f in dataclasses.fields(x):
             if f.name in _STRIP_KEYS:
                 continue
-            d[f.name] = canon(getattr(x, f.name))
+            d[f.name] = canon(getattr(x, f.name), ws)
         return d
     if isinstance(x, dict):
-        return {str(k): canon(v) for k, v in x.items() if k not in _STRIP_KEYS}
+        return {str(k): canon(v, ws) for k, v in x.items() if k not in _STRIP_KEYS}
     if isinstance(x, (list, tuple)):
-        return [canon(v) for v in x]
+        return [canon(v, ws) for v in x]
     if isinstance(x, enum.Enum):
         return str(x)
-    if isinstance(x, (str, int, float, bool)) or x is None:
+    if isinstance(x, str):
+        return _norm_ws(x) if ws else x
+    if isinstance(x, (int, float, bool)) or x is None:
         return x
     return repr(x)
 
@@ -276,7 +306,7 @@ def parse_canon(filename, content, ver):
         r = parse_colang_file(filename, content=content, version=ver)
     except Exception as ex:  # noqa
         return ("error", type(ex).__name__, str(ex)[:300])
-    c = json.dumps(canon(r), sort_keys=True, default=str)
+    c = json.dumps(canon(r, ws=(ver == "2.x")), sort_keys=True, default=str)
     return ("parsed", hashlib.sha1(c.encode()).hexdigest(), c)
 
 
@@ -399,7 +429,8 @@ def _doc_of(c, lo, hi, maxe):
     n = len(c["lines"])
     return {"ver": c["ver"], "maxe": maxe, "endid": hi + 1,
             "lines": [{"id": i, "indent": c["lines"][i - 1]["indent"], "class": c["lines"][i - 1]["class"],
-                       "endin": c["lines"][i - 1]["endin"], "tws": 0, "eol": False} for i in range(lo, hi + 1)]}
+                       "endin": c["lines"][i - 1]["endin"], "open": c["lines"][i - 1]["open"], "tws": 0, "eol": False}
+                      for i in range(lo, hi + 1)]}
 
 
 def _window(c, rnd, w):
@@ -413,9 +444,9 @@ def _window(c, rnd, w):
         if L[s - 1]["class"] in ("instring", "cont"):
             continue
         e = min(n, s + w - 1)
-        while e < n and (L[e - 1]["endin"] or L[e]["class"] in ("instring", "cont")):
+        while e < n and (L[e - 1]["endin"] or L[e - 1]["open"] or L[e]["class"] in ("instring", "cont")):
             e += 1
-        if L[e - 1]["endin"] or e - s + 1 > 3 * w:
+        if L[e - 1]["endin"] or L[e - 1]["open"] or e - s + 1 > 3 * w:
             continue
         return s, e
     return None
@@ -481,14 +512,14 @@ def emit_scripts(ctx, docs):
 # layout replay
 # ------------------------------------------------------------------------------------------------
 def _edit_ctx(c, e):
-    """(class, endin) of the line an edit touches, as NeutralAt wants it."""
+    """(class, endin, open) of the line an edit touches, as NeutralAt wants it."""
     n = len(c["lines"])
     if e["op"] == "scale":
-        return "all", False
+        return "all", False, False
     if e["id"] == n + 1:
-        return "eof", False
+        return "eof", False, False
     l = c["lines"][e["id"] - 1]
-    return l["class"], l["endin"]
+    return l["class"], l["endin"], l["open"]
 
 
 def _head(c, e):
@@ -541,7 +572,7 @@ def _saturation_scripts(c):
     res += [blanks, tws]
     if c["ver"] == "2.x":
         res.append([{"op": "eol", "id": i, "k": i % 2} for i in range(1, n + 1)
-                    if L[i - 1]["class"] == "code" and not L[i - 1]["endin"]])
+                    if L[i - 1]["class"] == "code" and not L[i - 1]["endin"] and not L[i - 1]["open"]])
     else:
         res.append([{"op": "twstab", "id": i, "k": 1} for i in range(1, n + 1) if not L[i - 1]["endin"]])
     res.append([{"op": "scale", "id": 0, "k": 2}])
@@ -825,7 +856,7 @@ def run(ctx):
         key = json.dumps([c["ver"], edits, rec["outcome"], rec["same"]])
         if key not in lkeys:
             lkeys[key] = len(lrecs)
-            lrecs.append({"ver": c["ver"], "edits": [{"op": e[0], "class": e[1], "endin": e[2], "k": e[3]} for e in edits],
+            lrecs.append({"ver": c["ver"], "edits": [{"op": e[0], "class": e[1], "endin": e[2], "open": e[3], "k": e[4]} for e in edits],
                           "orig_ok": True, "edited_outcome": rec["outcome"], "same_as_original": rec["same"],
                           "n": 0, "file": c["file"]})
         lrecs[lkeys[key]]["n"] += 1
@@ -893,6 +924,7 @@ def run(ctx):
         eviol.setdefault(key, []).append((case, o, v, sig))
     for key, lst in sorted(eviol.items()):
         lst.sort(key=lambda x: len(x[0][3]))
+        ctx.log("error-path class %s: %d cases, shortest %r" % (key, len(lst), lst[0][0][3][:80]))
         for case, o, v, sig in lst[:2]:
             ctx.violation(v["reason"], "Colang %s text %r (%s of %s): RailsConfig.from_path -> %s%s raised in %s (cause %s) "
                           "[%d cases of this class]" % (
